@@ -196,3 +196,61 @@ Proof.
     destruct (construct (vselect (map negb sel) rows)) as [k|t]; cbn [res_bind]; [|reflexivity].
     destruct (construct (map (set_mask true) (vselect sel rows))) as [h|t]; reflexivity.
 Qed.
+
+(* ---------- retrospective.py: MergeTopBottomPlateSmoother._get_plate_sample_id / ._smooth_plates ---------- *)
+Theorem src_tb_get_plate_sample_id_is_model : forall rows p,
+  src_merge_tb_get_plate_sample_id rows (plate_vec p rows) = plate_sample p rows.
+Proof.
+  intros rows p. unfold src_merge_tb_get_plate_sample_id, plate_sample, plate_unique_samples, plate_samples, zlen.
+  rewrite vselect_plate_vec.
+  destruct (sort_uniq name_cmp (map r_sample (filter (in_plate p) rows))) as [|x [|y l]]; cbn [length first_item res_bind];
+    try reflexivity.
+  destruct (Z.of_nat (S (S (length l))) >? 1)%Z eqn:E; [reflexivity|].
+  rewrite Z.gtb_ltb in E. apply Z.ltb_ge in E. lia.
+Qed.
+
+(* the loop over the (smaller, bigger) pairs *)
+Lemma tb_pairs_loop : forall pairs rows,
+  fold_left (fun r (ab : bvec * bvec) => snd (merge (snd ab) (fst ab) r)) pairs rows = tb_merge_pairs pairs rows.
+Proof. induction pairs as [|[a b] pairs IH]; intros rows; cbn [fold_left tb_merge_pairs fst snd]; [reflexivity | apply IH]. Qed.
+
+Lemma half_nat : forall n, Z.to_nat (Z.of_nat n / 2) = n / 2.
+Proof. intros n. change 2%Z with (Z.of_nat 2). rewrite <- Nat2Z.inj_div. apply Nat2Z.id. Qed.
+
+(* the `for i in range(n_iterations)` loop with its break, for an arbitrary body equal to one model iteration *)
+Lemma tb_brk {A : Type} (s : name) (f : screen_t -> A -> result (bool * screen_t)) :
+  (forall r i, f r i = dor o <- tb_iter s r; match o with None => Ok (false, r) | Some r' => Ok (true, r') end) ->
+  forall (l : list A) rows, res_fold_brk f l rows = tb_iters (length l) s rows.
+Proof.
+  intros Hf. induction l as [|i l IH]; intros rows; cbn [res_fold_brk length tb_iters]; [reflexivity|].
+  rewrite Hf. destruct (tb_iter s rows) as [[r'|]|t]; cbn [res_bind fst snd]; [apply IH | reflexivity | reflexivity].
+Qed.
+
+Lemma tb_for (n : nat) (f : screen_t -> name -> result screen_t) :
+  (forall r s, f r s = tb_iters n s r) ->
+  forall samples rows, res_fold f samples rows = tb_samples n samples rows.
+Proof.
+  intros Hf. induction samples as [|s samples IH]; intros rows; cbn [res_fold tb_samples]; [reflexivity|].
+  rewrite Hf. destruct (tb_iters n s rows); cbn [res_bind]; [apply IH | reflexivity].
+Qed.
+
+Theorem src_merge_tb_is_model : forall n_iter rows, src_merge_tb_smooth_plates n_iter rows = merge_tb n_iter rows.
+Proof.
+  intros n rows. unfold src_merge_tb_smooth_plates, merge_tb.
+  rewrite (tb_for (Z.to_nat n)).
+  - destruct (tb_samples (Z.to_nat n) (sample_names rows) rows); reflexivity.
+  - intros r s. cbv beta.
+    rewrite (tb_brk s).
+    + destruct (tb_iters (length (zrange n)) s r) eqn:E; cbn [res_bind];
+        unfold zrange in E; rewrite map_length, seq_length in E; now rewrite E.
+    + intros r0 i. cbv beta. unfold tb_iter.
+      rewrite (heap_comprehension s r0) by (intro p; rewrite src_tb_get_plate_sample_id_is_model; reflexivity).
+      destruct (plates_of_sample s r0) as [ps|t]; cbn [res_bind]; [|reflexivity].
+      unfold zlen. rewrite map_length.
+      destruct (length ps <=? 1) eqn:E1.
+      * apply Nat.leb_le in E1. destruct (Z.of_nat (length ps) <=? 1)%Z eqn:E2; [reflexivity|]. lia.
+      * apply Nat.leb_gt in E1. destruct (Z.of_nat (length ps) <=? 1)%Z eqn:E2; [lia|].
+        rewrite half_nat.
+        rewrite (res_fold_pure _ (fun r (ab : bvec * bvec) => snd (merge (snd ab) (fst ab) r))) by (intros r1 [a b]; reflexivity).
+        cbn [res_bind]. now rewrite tb_pairs_loop.
+Qed.
